@@ -379,6 +379,13 @@ Definition mk_unknown (code : N) (body : bytes) : proto :=
 
 Definition max_alloc : N := 2 ^ 48.   (* runtime.maxAlloc on linux/amd64 *)
 
+(* firstn with a binary count (the declared size may be astronomically large here) *)
+Fixpoint firstnN (n : N) (l : bytes) : bytes :=
+  match l with
+  | [] => []
+  | x :: r => if n =? 0 then [] else x :: firstnN (n - 1) r
+  end.
+
 Definition read_unknown_v0 (data : bytes) : res (proto * nat) * N :=
   match dec data with
   | Ok (v, k1) =>
@@ -389,7 +396,7 @@ Definition read_unknown_v0 (data : bytes) : res (proto * nat) * N :=
       (* int(size) wraps to a negative length at 2^63 - hdr *)
       if (max_alloc <? total) then (Panic PMakeslice, 0)
       else
-        let body := firstn (N.to_nat size) (skipn (k1 + k2) data) in
+        let body := firstnN size (skipn (k1 + k2) data) in
         let n := length body in
         ( if Nat.eqb n 0 && (0 <? size) then Err EEOF
           else if negb (N.of_nat n =? size) then Err EShort
